@@ -162,13 +162,14 @@ def trees(depth, leaves):
     yield {'_placeholder': True}
 
 
+DEPTH = int(os.environ.get('VERIF_BOUNDED_DEPTH', '2'))
 NAMESPACES = [None, '/', '/a', '/chat/room-1', '/1', '/9-']
 IDS = [None, 0, 7, 42, 1234567, 10 ** 10 + 1, 2 ** 63 - 1]
 
 
 def packets():
     seen = 0
-    payload_trees = list(trees(2, LEAVES))
+    payload_trees = list(trees(DEPTH, LEAVES))
     for nsp in NAMESPACES:
         for id_ in IDS:
             yield CONNECT, nsp, None if id_ else None, None
@@ -282,8 +283,8 @@ def main():
             except Exception as e:   # noqa: BLE001
                 fail('codec.binary-only-in-events-and-acks', 'raised %r instead of ValueError' % (e,), (ptype, '/a', None, data))
     print(json.dumps({'packets': total,
-                      'bound': 'types 0-6; namespaces %r; ids %r; payload trees of nesting depth <= 2 (+1 for the event list), lists/dicts of <= 2 items, '
-                               '%d leaf values incl. 3 byte strings and strings containing , - / " \\\\ newline and a non-ASCII letter' % (NAMESPACES, IDS, len(LEAVES)),
+                      'bound': 'types 0-6; namespaces %r; ids %r; payload trees of nesting depth <= %d (+1 for the event list), lists/dicts of <= 2 items, '
+                               '%d leaf values incl. 3 byte strings and strings containing , - / " \\\\ newline and a non-ASCII letter' % (NAMESPACES, IDS, DEPTH, len(LEAVES)),
                       'checks': checks}))
 
 
